@@ -506,6 +506,10 @@ class Phase(Angle):
         if string.dtype.kind not in "SU":
             raise ValueError("require string input.")
         count, frac = _parse_strings(string)
+        if not np.any(np.char.endswith(np.char.lower(np.char.strip(string)), "j")):
+            # Real strings: a zero integer or fractional part parses to 0+0j,
+            # which must not be mistaken for an imaginary part.
+            count, frac = count.real, frac.real
         return cls(count, frac)
 
     @property
